@@ -149,6 +149,17 @@ def dual_eval(e, env, wrt):
         return dual_eval(e.then if c else e.else_, env, wrt)
     if isinstance(e, p.CommonSubexpression):
         return dual_eval(e.child, env, wrt)
+    from pymbolic.polynomial import Polynomial
+    if isinstance(e, Polynomial):
+        # sum of coeff * base**exp with non-negative integer exponents
+        bse = dual_eval(e.Base, env, wrt)
+        v, d = 0, 0
+        for ex_, coeff in e.Data:
+            c = dual_eval(coeff, env, wrt)
+            pw = _pow(bse.v, ex_) if ex_ else 1
+            dpw = ex_ * (_pow(bse.v, ex_ - 1) if ex_ > 1 else 1) * bse.d if ex_ else 0
+            v, d = v + c.v * pw, d + c.d * pw + c.v * dpw
+        return Dual(v, d)
     raise KeyError(type(e).__name__)
 
 
@@ -240,6 +251,10 @@ def gen_exprs(tier, rng):
     for f in (pf.sin, pf.cos, pf.tan, pf.log, pf.exp, pf.sinh, pf.cosh, pf.tanh, pf.expm1):
         for cst in (2, 1.5):      # small arguments: exp(7) as an exponent overflows double precision, which says nothing about the derivative
             level1 += [p.Product((f(cst), x)), p.Sum((f(cst), p.Product((x, x)))), p.Power(x, f(cst)), f(cst), p.Product((x, f(p.Product((cst, y)))))]
+    # polynomial nodes: numeric and symbolic coefficients, variable / composite bases, the differentiation variable in base, coefficients, both, neither
+    from pymbolic.polynomial import Polynomial
+    level1 += [Polynomial(x, ((0, 1), (2, 3))), Polynomial(x, ((1, y), (3, 2))), Polynomial(p.Sum((x, 1)), ((2, 1),)), Polynomial(y, ((0, x), (2, p.Product((x, x))))),
+               Polynomial(y, ((1, 2), (4, -1))), Polynomial(x, ((0, a0), (1, x), (2, y))), p.Product((2, Polynomial(x, ((3, 1),)))), p.Sum((Polynomial(a0, ((1, x), (2, 3))), y))]
     level1 += [p.Sum((x, y, a0)), p.Product((x, y, a0)), p.Product((x, x, x, y)), p.Sum(()), p.Product(()), p.Sum((x,)), p.Product((y,)),
                p.Sum((x, 2, y, a1, x)), p.Product((2, x, y, a1, x))]
     out = list(level1)
@@ -393,7 +408,7 @@ def _has_copysign_first(e, wrt):
             return True
         if isinstance(n, p.Expression):
             import dataclasses
-            for f in dataclasses.fields(n):
+            for f in (dataclasses.fields(n) if dataclasses.is_dataclass(n) else ()):
                 v = getattr(n, f.name)
                 if any(occurs(c) for c in (v if isinstance(v, tuple) else (v,))):
                     return True
@@ -406,7 +421,7 @@ def _has_copysign_first(e, wrt):
                 found = True
         if isinstance(n, p.Expression):
             import dataclasses
-            for f in dataclasses.fields(n):
+            for f in (dataclasses.fields(n) if dataclasses.is_dataclass(n) else ()):
                 v = getattr(n, f.name)
                 for c in (v if isinstance(v, tuple) else (v,)):
                     walk(c)
@@ -431,7 +446,7 @@ def _edge(e, env):
                 edge = True
         if isinstance(n, p.Expression):
             import dataclasses
-            for f in dataclasses.fields(n):
+            for f in (dataclasses.fields(n) if dataclasses.is_dataclass(n) else ()):
                 v = getattr(n, f.name)
                 for c in (v if isinstance(v, tuple) else (v,)):
                     walk(c)
